@@ -8,6 +8,7 @@
 //!              search: 1 HIT, 0 NO-HIT, 2 usage / internal error.
 
 mod exact;
+mod format;
 mod gen2;
 mod oracles;
 mod props;
@@ -22,7 +23,8 @@ const USAGE: &str = "usage:
   ats-replay run <history.json> [--quiet]
   ats-replay search --oracle <name|all|new> --seed <u64> --iters <n> [--max-steps k] [--out <file.json>]
                     [--profile default|convertible|fees|nonlot|markers|auth|config|admission|match|migration|instantiate|auto] [--stats]
-  ats-replay oracles [--profiles]   (list oracle names [and the search profiles registered for each])";
+  ats-replay oracles [--profiles]   (list oracle names [and the search profiles registered for each])
+  ats-replay storage <history.json> (run the history, print the raw contract storage afterwards)";
 
 fn main() {
     run::install_panic_hook();
@@ -41,6 +43,7 @@ fn real_main(args: &[String]) -> i32 {
     match args.first().map(|s| s.as_str()) {
         Some("run") => cmd_run(&args[1..]),
         Some("search") => search::cmd_search(&args[1..]),
+        Some("storage") => cmd_storage(&args[1..]),
         Some("oracles") => {
             let with_profiles = args.iter().any(|a| a == "--profiles");
             for o in oracles::ORACLES {
@@ -57,6 +60,43 @@ fn real_main(args: &[String]) -> i32 {
             2
         }
     }
+}
+
+/// `ats-replay storage <history.json>`: runs the history (no oracles) and prints the raw contract
+/// storage afterwards, one line per entry: the key (non-printable bytes as \xNN) and the stored bytes.
+fn cmd_storage(args: &[String]) -> i32 {
+    let file = match args.first() {
+        Some(f) => f,
+        None => {
+            eprintln!("{USAGE}");
+            return 2;
+        }
+    };
+    let history: Value = match std::fs::read_to_string(file)
+        .map_err(|e| e.to_string())
+        .and_then(|t| serde_json::from_str(&t).map_err(|e| e.to_string()))
+    {
+        Ok(v) => v,
+        Err(e) => {
+            eprintln!("error: cannot read {file}: {e}");
+            return 2;
+        }
+    };
+    let (world, _) = match run::run_history(&history, &OracleSel::Nothing, |_| {}) {
+        Ok(r) => r,
+        Err(e) => {
+            eprintln!("error: malformed history: {e}");
+            return 2;
+        }
+    };
+    for (k, v) in run::Snap::take(&world.deps.storage).raw {
+        let key: String = k
+            .iter()
+            .map(|b| if (0x20..0x7f).contains(b) { (*b as char).to_string() } else { format!("\\x{b:02x}") })
+            .collect();
+        println!("{key}\t{}", String::from_utf8_lossy(&v));
+    }
+    0
 }
 
 fn cmd_run(args: &[String]) -> i32 {
